@@ -3,6 +3,7 @@
 package main
 
 import (
+	"runtime"
 	"encoding/hex"
 	"encoding/json"
 	"fmt"
@@ -229,7 +230,7 @@ func c14Commands() []string {
 }
 
 func checkC14(c *ev.Ctx) {
-	c.Rule("SSH_ORIGINAL_COMMAND from a 63-text catalogue (JSON objects with good/missing/mistyped fields and 8 version spellings, other JSON values, legacy k=v texts, empty, raw bytes) x LOGNAME{5} x SSH_CONNECTION{11} x argument vectors: part A (serial, CSPRNG identity checked) all commands x lognames x connections x 8 vectors; 300 distinct declared versions / users / hosts / addresses in one process, each revisited twice; part B all vectors of 0..4 arguments over a 9-token alphabet (incl. space-containing arguments that end in a policy token) (thorough: 0..8 over 4 tokens as well) x reduced command/logname/connection sets; each compared with a reference model written from the statement. non-trivial = accepted input; distinct by input")
+	c.Rule("SSH_ORIGINAL_COMMAND from a 63-text catalogue (JSON objects with good/missing/mistyped fields and 8 version spellings, other JSON values, legacy k=v texts, empty, raw bytes) x LOGNAME{5} x SSH_CONNECTION{11} x argument vectors: part A (serial, CSPRNG identity checked) all commands x lognames x connections x 8 vectors; every ordered pair of catalogue commands back to back on one pinned goroutine (twice); 300 distinct declared versions / users / hosts / addresses in one process, each revisited twice; part B all vectors of 0..4 arguments over a 9-token alphabet (incl. space-containing arguments that end in a policy token) (thorough: 0..8 over 4 tokens as well) x reduced command/logname/connection sets; each compared with a reference model written from the statement. non-trivial = accepted input; distinct by input")
 	c.Assume("transid bytes come through the csprng seam (crypto/rand import of csr/transid redirected to a recording deterministic stream)")
 	if c.ReplayCase != nil {
 		var k c14Case
@@ -253,6 +254,24 @@ func checkC14(c *ev.Ctx) {
 	}
 	c.Sample(c14Case{Cmd: cmds[0], LogName: "alice", Conn: conns[0], Args: argvs[2]})
 	c.Sample(c14Case{Cmd: "null", LogName: "alice", Conn: conns[0], Args: argvs[0]})
+	// every ordered pair of catalogue commands back to back on one goroutine (same login name, connection and arguments):
+	// what an earlier request - accepted or refused - left behind in the process must not reach the next one. Pooled
+	// scratch objects are per processor and dropped by the collector, so each pair runs twice and on a pinned thread.
+	func() {
+		runtime.LockOSThread()
+		defer runtime.UnlockOSThread()
+		for rep := 0; rep < 2; rep++ {
+			for _, a := range cmds {
+				for _, b := range cmds {
+					if len(a) > 2000 || len(b) > 2000 {
+						continue
+					}
+					c14Run(c, c14Case{Cmd: a, LogName: "alice", Conn: conns[0], Args: argvs[2]}, true)
+					c14Run(c, c14Case{Cmd: b, LogName: "alice", Conn: conns[0], Args: argvs[2]}, true)
+				}
+			}
+		}
+	}()
 	// many distinct declared values in one process, then every one of them again (forwards, then in a stride order): an
 	// answer remembered for an earlier request - a cache with eviction, an interning table - must not change what a later
 	// request declares
